@@ -5,10 +5,10 @@
      msg  := Q(<req>) | R(<res>;<req>)
      req  := K:from>to:t<term>:li.lt.lc:[i.t.d,...]                   K := A | H | P | V
      res  := ok | lm<l> | tm<l>.<r> | gm<il>.<ir>.<tl>.<tr>.<cl>.<cr> | av<l>.<r>
-   commands (r<ab> = revision of the election code, Raft.raftrev: a = fix_vote_term, b = fix_vote_match;
-   optional, default r00 = rr_pinned):
-     run  [r<ab>] <n> <ev>...   -> the state line after every event, joined by " ;; "
-     flags [r<ab>] <n> <ev>...  -> es=<0|1> agree=<0|1> lc=<0|1> dv=.. sv=.. ad=.. ot=.. av=.. nq=..   (oracles / KnownClass on the model's run; lc = leaders of HIGHER terms hold the leader-committed entries)
+   commands (r<abc> = revision of raft.rs, Raft.raftrev: a = fix_vote_term, b = fix_vote_match, c = fix_ack_term;
+   optional, default r000 = rr_pinned; the two-bit form r<ab> of older replay files means c = 0):
+     run  [r<abc>] <n> <ev>...   -> the state line after every event, joined by " ;; "
+     flags [r<abc>] <n> <ev>...  -> es=<0|1> agree=<0|1> lc=<0|1> dv=.. sv=.. ad=.. ot=.. av=.. nq=.. sa=..   (sa = root-cause marker RaftLog.stale_ack_counted_b; oracles / KnownClass on the model's run; lc = leaders of HIGHER terms hold the leader-committed entries)
    events: (T i elapsed (j ...)) (D k elapsed) (X k) (U k) (A i d); numbers decimal *)
 open Model
 open Util
@@ -57,12 +57,15 @@ let ev_of_sexp = function
 
 let b x = if x then "1" else "0"
 
-(* optional leading revision token r<ab> *)
+(* optional leading revision token r<abc> (or r<ab>: c = 0) *)
 let split_rev (args : sexp list) : raftrev * sexp list =
+  let bit c = (c = '0' || c = '1') in
   match args with
-  | A s :: rest when String.length s = 3 && s.[0] = 'r' && (s.[1] = '0' || s.[1] = '1') && (s.[2] = '0' || s.[2] = '1') ->
-    ({ fix_vote_term = (s.[1] = '1'); fix_vote_match = (s.[2] = '1') }, rest)
-  | _ -> ({ fix_vote_term = false; fix_vote_match = false }, args)
+  | A s :: rest when String.length s = 4 && s.[0] = 'r' && bit s.[1] && bit s.[2] && bit s.[3] ->
+    ({ fix_vote_term = (s.[1] = '1'); fix_vote_match = (s.[2] = '1'); fix_ack_term = (s.[3] = '1') }, rest)
+  | A s :: rest when String.length s = 3 && s.[0] = 'r' && bit s.[1] && bit s.[2] ->
+    ({ fix_vote_term = (s.[1] = '1'); fix_vote_match = (s.[2] = '1'); fix_ack_term = false }, rest)
+  | _ -> ({ fix_vote_term = false; fix_vote_match = false; fix_ack_term = false }, args)
 
 let handle (cmd : string) (args : sexp list) : string =
   let rv, args = split_rev args in
@@ -75,9 +78,9 @@ let handle (cmd : string) (args : sexp list) : string =
     let evl = List.map ev_of_sexp evs in
     let c = run rv (n_of_s n) evl in
     let h = c.c_hist in
-    Printf.sprintf "es=%s agree=%s lc=%s dv=%s sv=%s ad=%s ot=%s av=%s nq=%s"
+    Printf.sprintf "es=%s agree=%s lc=%s dv=%s sv=%s ad=%s ot=%s av=%s nq=%s sa=%s"
       (b (election_safety_b h)) (b (committed_agree_b c)) (b (leader_completeness_up_b h))
       (b (double_vote_b h)) (b (stale_vote_b h)) (b (ack_diverged_b h)) (b (old_term_commit_b h)) (b (ack_below_vote_b h))
-      (b (commit_noquorum_b rv (n_of_s n) evl))
+      (b (commit_noquorum_b rv (n_of_s n) evl)) (b (stale_ack_counted_b rv (n_of_s n) evl))
   | "init", [A n] -> str_cluster (init_default (n_of_s n))
   | _ -> failwith ("raft: bad command " ^ cmd)
